@@ -53,7 +53,7 @@ def main(argv=None):
 			return 0
 		for run in args['runs']:
 			faulthandler.dump_traceback_later(per_run_timeout, exit=True)
-			r = engine.execute(mod.scenario, prop, seed, run, tier, root=root)
+			r = engine.execute(mod.scenario, prop, seed, run, tier, root=root, rng_run=run // getattr(mod, 'RUN_GROUP', 1))
 			faulthandler.cancel_dump_traceback_later()
 			rec = r.to_json(with_events=(run in sample_runs))
 			if r.violation is not None and r.error is None:
